@@ -115,6 +115,10 @@ func genList(r *corr.Rand) (setup []string, threads [][]string) {
 		}
 		threads = append(threads, ops)
 	}
+	if r.Chance(60) { // the handle's io/fs ReadDir against metadata changes of the entries it lists
+		threads = append(threads, []string{"open " + h("/d"), "h.readdirfs 0 -1", "h.readdirfs 0 2", "h.readdirfs 0 -1", "h.readdir 0 -1"},
+			[]string{"chmod " + h("/d/f") + " 384", "chmod " + h("/d/g") + " 420", "chmod " + h("/d/k") + " 384", "chmod " + h("/d/f") + " 420", "chtimes " + h("/d/g") + " 5"})
+	}
 	return
 }
 
